@@ -3,6 +3,7 @@
 from __future__ import annotations
 
 from copy import deepcopy
+from numbers import Integral
 from typing import TYPE_CHECKING, Any, Generic, Self, TypeVar, overload
 
 from quansino.protocols import Move
@@ -150,7 +151,7 @@ class CompositeMove(Generic[MoveType]):
         CompositeMove
             The composite move with repeated moves.
         """
-        if not isinstance(n, int):
+        if not isinstance(n, Integral):
             raise TypeError(
                 f"The number of times the move is repeated must be a positive, non-zero integer. Got {type(n)}."
             )
@@ -159,7 +160,7 @@ class CompositeMove(Generic[MoveType]):
                 "The number of times the move is repeated must be a positive, non-zero integer."
             )
 
-        return type(self)(self.moves * n)
+        return type(self)(self.moves * int(n))
 
     def __getitem__(self, index: int) -> MoveType:
         """
